@@ -580,6 +580,85 @@ theorem createCVSameSizeBalanced_total {ι : Type} (set : LabeledData ι Nat) (h
     Except.bind, pure, Except.pure]
   exact hf
 
+/-! ## shapes of createCVSameSize, batch counts of createCVBatch, recreation indices of createCVSameSizeBalanced -/
+
+/-- **createCVSameSize keeps the element shapes** (repartition and shuffle do) -/
+theorem createCVSameSize_shape_kept (set : LabeledData ι κ) (k : Nat) (perm : List Nat) (bs : Nat) (f : CVFolds ι κ)
+    (h : createCVSameSize set k perm bs = .ok f) :
+    f.dataset.inputs.shape = set.inputs.shape ∧ f.dataset.labels.shape = set.labels.shape := by
+  simp only [createCVSameSize, bind_ok, ofOpt_ok, require_ok] at h
+  obtain ⟨vs, _, ⟨nb, st, sizes⟩, _, set1, hrep, _, _, set2, hreo, hfolds⟩ := h
+  simp only [CVFolds.ofStarts, bind_ok, ofOpt_ok, pure_ok] at hfolds
+  obtain ⟨_, _, rfl⟩ := hfolds
+  simp only [LabeledData.repartition, bind_ok, pure_ok] at hrep
+  obtain ⟨i1, hi1, l1, hl1, rfl⟩ := hrep
+  simp only [LabeledData.reorderElements, bind_ok, pure_ok] at hreo
+  obtain ⟨i2, hi2, l2, hl2, rfl⟩ := hreo
+  simp only [Data.repartition, bind_ok, require_ok, pure_ok] at hi1 hl1
+  obtain ⟨_, _, _, _, rfl⟩ := hi1
+  obtain ⟨_, _, _, _, rfl⟩ := hl1
+  simp only [Data.reorderElements, bind_ok, require_ok, pure_ok] at hi2 hl2
+  obtain ⟨_, _, _, _, rfl⟩ := hi2
+  obtain ⟨_, _, _, _, rfl⟩ := hl2
+  exact ⟨rfl, rfl⟩
+
+/-- **createCVBatch: the folds own ⌊nb/k⌋ (+1 for the first nb mod k folds) batches each**, so any two folds differ by
+at most one batch -/
+theorem createCVBatch_fold_batch_counts (set : LabeledData ι κ) (k : Nat) (perm : List Nat) (f : CVFolds ι κ)
+    (h : createCVBatch set k perm = .ok f) :
+    f.validationFolds.map List.length =
+      (List.range k).map fun i => set.numberOfBatches / k + (if i < set.numberOfBatches % k then 1 else 0) := by
+  simp only [createCVBatch, bind_ok, require_ok, ofOpt_ok, pure_ok, isPermOf, CVFolds.ofSets, batchFoldsLoop_eq] at h
+  obtain ⟨_, hperm, q, hq, r, hr, rfl⟩ := h
+  have hp : perm.Perm (List.range set.numberOfBatches) := List.isPerm_iff.mp hperm
+  simp only [cdiv] at hq
+  split at hq
+  · simp at hq
+  · rename_i hk
+    simp only [Option.some.injEq] at hq
+    subst hq
+    simp only [csub] at hr
+    split at hr
+    · simp only [Option.some.injEq] at hr
+      subst hr
+      have hmod : set.numberOfBatches - set.numberOfBatches / k * k = set.numberOfBatches % k := by
+        have := Nat.div_add_mod set.numberOfBatches k; rw [Nat.mul_comm] at this; omega
+      rw [hmod]
+      apply splitBySizes_lengths
+      obtain ⟨l, hl, _, hsum, _⟩ := samesize_balanced set.numberOfBatches k (Nat.pos_of_ne_zero hk)
+      rw [(dealing_fills_folds_exactly set.numberOfBatches k 0 (Nat.pos_of_ne_zero hk) (Nat.pos_of_ne_zero hk)).2] at hl
+      cases hl
+      rw [hsum]
+      have := hp.length_eq
+      simp only [List.length_range] at this
+      omega
+    · simp at hr
+
+/-- **createCVSameSizeBalanced: the folds and the recreation indices** — for every admissible dealing order,
+`validation(p)` is exactly the elements at the positions `first[j]` with `second[j] = p` (so createCVFullyIndexed with
+(first, second) recreates the folds), `validation(p)` ++ `training(p)` is a permutation of the original pairs, and the
+element shapes are kept -/
+theorem createCVSameSizeBalanced_folds {ι : Type} (set : LabeledData ι Nat) (hw : C03.WF set) (k : Nat) (seq : List Nat)
+    (bs : Nat) (f : CVFolds ι Nat) (first second : List Nat)
+    (h : createCVSameSizeBalanced set k seq bs = .ok (f, first, second))
+    (p : Nat) (hp : p < k) (vd td : LabeledData ι Nat) (hv : f.validation p = .ok vd) (ht : f.training p = .ok td) :
+    ∃ els, els.map some = first.map (fun i => (C03.pairs set)[i]?) ∧
+      C03.pairs vd = ((List.zip els second).filter (·.2 = p)).map (·.1) ∧
+      (C03.pairs vd ++ C03.pairs td).Perm (C03.pairs set) ∧
+      vd.inputs.shape = set.inputs.shape ∧ td.inputs.shape = set.inputs.shape := by
+  obtain ⟨_, hperm', _, _⟩ := createCVSameSizeBalanced_partition set hw k seq bs f first second h
+  simp only [createCVSameSizeBalanced, bind_ok, require_ok, ofOpt_ok] at h
+  obtain ⟨_, _, labs, hlabs, _, hvalid, hm⟩ := h
+  obtain ⟨_, _, _, hr, rfl, rfl⟩ := balancedMembers_eq_regroup set k _ seq bs f first second hm
+  obtain ⟨els, hpick, hpairs, hpm, hds, s1, s2, _, _⟩ := regroup_end_to_end set k _ bs f hr p hp vd td hv ht
+  have hfst : (List.zip first ((List.range first.length).map (· % k))).map (·.1) = first := by
+    apply List.map_fst_zip; simp
+  have hsnd : (List.zip first ((List.range first.length).map (· % k))).map (·.2) = (List.range first.length).map (· % k) := by
+    apply List.map_snd_zip; simp
+  rw [hfst] at hpick
+  rw [hsnd] at hpairs
+  exact ⟨els, pick_eq set hw first els hpick, hpairs, hpm.trans hperm', s1, s2⟩
+
 /-! ## non-vacuity -/
 example : complementSD [3, 1, 3] 5 = [0, 2, 4] := by rw [complementSD_eq]; decide
 /-- witness that the sort in `detail::complement` is needed: the single merge pass over the unsorted index set
